@@ -249,7 +249,8 @@ def evaluate(db1, case: dict, classes: set, perturbed: Optional[List[str]] = Non
                 where = _xml_context(data, line, col)
                 return [core.Failure("well-formed", f"member {os.path.splitext(name)[1]} is not well-formed XML: {e} "
                                      f"({where})", case,
-                                     {"bucket": f"{pkey}|not-well-formed", "key": pkey, "mode": "not-well-formed",
+                                     # root cause = the template position that emitted the broken text
+                                     {"bucket": f"{where}|not-well-formed", "key": pkey, "mode": "not-well-formed",
                                       "where": where})]
         # 3. load
         try:
